@@ -243,9 +243,9 @@ def gen_cases(tier):
             add(net, [_canon(q[:5])], procs=[1, 3])
         else:
             add(net, dn.ordered_lists(q, 2))
-            add(net, dn.ordered_lists(q, 3, kmin=3), procs=[1, 2, 4])
-            add(net, dn.subsets_two_orders(q, 4))
-            add(net, dn.subsets_two_orders(q, 5)[:6])
+            add(net, dn.ordered_lists(q, 3, kmin=3), procs=[1, 2])
+            add(net, sub(4))
+            add(net, dn.subsets_two_orders(q, 5)[:3])
         # exact ties: symmetric parallel elements whose outages give bitwise identical results for all other
         # elements (the named cause then depends on the order in which the aggregation sees the results)
         add(net, TIES.get(net, []), procs=[1, 2, 3])
@@ -269,8 +269,9 @@ def explore(tier, seed):
         nm.brute(c)
         dn.build(c)
     rep.rule = ("E5 x E1: nets %s x ordered N-1 lists (quick: all ordered lists of <=2 menu elements with n_procs {1,2}, every "
-                "2nd 3-subset {1,2,4}, every 5th 4-subset {1,2,3,4}, one 5-task list {1,3}; thorough: all ordered lists of <=3, "
-                "all 4-subsets in two orders and six 5-task lists with {1,2,3,4}); one 9-task list with repeats per net "
+                "2nd 3-subset {1,2,4}, every 5th 4-subset {1,2,3,4}, one 5-task list {1,3}; thorough: all ordered lists of <=2 "
+                "{1,2,3,4} and of 3 {1,2}, all 4-subsets and three 5-task lists with {1,2,3,4}); exact-tie lists (symmetric "
+                "parallel elements) {1,2,3}; one 9-task list with repeats per net "
                 "(n_procs 2: chunksize 2, 5 chunks); heavy-load lists with a non-converging outage, with and without "
                 "raise_errors) x EVERY permutation of the chunks as completion order under the controlled pool; one evaluation = "
                 "one run_contingency_parallel call compared with run_contingency; distinct+non-trivial = (list, n_procs, "
